@@ -133,11 +133,34 @@ def extracted_portmon(repo):
                          None, "", [], "mon_fx", MON_EFFECTS, [spec])
 
 
+# Port.run, the server process, cut at its yields (vlib/translate_gen.py): Gen/Extracted_port_run.v; bridged to the PInit /
+# PGet / PTimer steps of Elem/Port.v by coq/Elem/PortRunBridge.v; obligations in Props/C09_BridgeRun.v
+PORT_RUN_STATE = [("byte_size", "Z"), ("busy", "Z"), ("busy_packet_size", "Z")]
+PORT_RUN_READS = [("self.rate", "rate", "Q"), ("packet.size", "size", "Z"), ("self.out", "out_set", "optobj")]
+PORT_RUN_FX = [("self.out.put(packet)", "FxOutPut", [])]
+# FxOutPut carries what the downstream element can see of the port while its put() runs
+PORT_RUN_SEES = {"FxOutPut": ["busy", "busy_packet_size", "byte_size"]}
+PORT_RUN_FX_CONS = [("FxOutPut", "(busy : Z) (busy_packet_size : Z) (byte_size : Z)")]
+PORT_RUN_REQUESTS = [("self.store.get()", "RqStoreGet", [], "obj"),       # resumes with the packet
+                     ("env.timeout(_1)", "RqTimeout", ["Q"], None)]
+PORT_RUN_REQ_CONS = [("RqStoreGet", ""), ("RqTimeout", "(d : Q)")]
+
+
+def extracted_port_run(repo):
+    import os
+    from vlib import translate_gen as tg
+    spec = tg.GenSpec(os.path.join(repo, "onl", "netdev", "port.py"), "Port", "run", "gen_Port_run",
+                      reads=PORT_RUN_READS, effects=PORT_RUN_FX, requests=PORT_RUN_REQUESTS, objects=["packet"],
+                      sees=PORT_RUN_SEES)
+    return tg.gen_run_module("onl/netdev/port.py: Port.run", spec, PORT_RUN_STATE, "port_run_st", "pr_", "port_run_fx",
+                             PORT_RUN_FX_CONS, PORT_RUN_REQ_CONS, types="port_run")
+
+
 class PortPart:
     name = "port"
     kinds = ["port", "redport", "portmon", "port2", "redport2"]
     serves = ["C09", "C08"]
-    props_files = {"C09": ["Props/C09.v", "Props/C09_Bridge.v", "Props/C09_BridgeRed.v", "Props/C09_BridgeMon.v", "Props/C09_Examples.v"], "C08": ["Props/C08_Port.v"]}
+    props_files = {"C09": ["Props/C09.v", "Props/C09_Bridge.v", "Props/C09_BridgeRed.v", "Props/C09_BridgeMon.v", "Props/C09_BridgeRun.v", "Props/C09_Examples.v"], "C08": ["Props/C08_Port.v"]}
     coq_imports = ["From ONL Require Import Base.Cmp Elem.Packet Elem.StoreQ Elem.Port Elem.Red."]
     weight = 1
     nontrivial_rule = {
@@ -160,7 +183,12 @@ class PortPart:
                 "objects after each action",
                 "vlib/translate.py (Python ast, fail closed; observation/effect tables in props/part_port.py) regenerates "
                 "coq/Gen/Extracted_port.v, Extracted_red.v and Extracted_portmon.v from the put() bodies and PortMonitor's sampling statements of the tree under test before every build; the C09_gen_* theorems "
-                "(Props/C09_Bridge.v, C09_BridgeRed.v, C09_BridgeMon.v) bridge them to the hand-written model; print() calls are ignored"],
+                "(Props/C09_Bridge.v, C09_BridgeRed.v, C09_BridgeMon.v) bridge them to the hand-written model; print() calls are ignored",
+                "vlib/translate_gen.py (same subset and tables, plus the cut of a generator body at its yields; request / effect "
+                "tables PORT_RUN_* in props/part_port.py) regenerates coq/Gen/Extracted_port_run.v from Port.run before every build; "
+                "the C09_gen_port_run_* theorems (Props/C09_BridgeRun.v, proofs Elem/PortRunBridge.v) prove the automaton's PInit / "
+                "PGet / PTimer steps equal to the generated functions; that the kernel resumes the generator exactly at these "
+                "steps (Initialize, granted StoreGet, Timeout) stays with the per-run correspondence"],
         "C08": ["packet identity = Python object identity recorded by the downstream tap"],
     }
     assumptions = {
@@ -184,6 +212,7 @@ class PortPart:
         tr.write_if_changed(os.path.join(fw.COQ, "Gen", "Extracted_port.v"), extracted_port(fw.REPO))
         tr.write_if_changed(os.path.join(fw.COQ, "Gen", "Extracted_red.v"), extracted_red(fw.REPO))
         tr.write_if_changed(os.path.join(fw.COQ, "Gen", "Extracted_portmon.v"), extracted_portmon(fw.REPO))
+        tr.write_if_changed(os.path.join(fw.COQ, "Gen", "Extracted_port_run.v"), extracted_port_run(fw.REPO))
 
     # ---- generation -----------------------------------------------------------------------------
     SIZES = {0: (10, 64, 100, 512, 1500), 8: (1, 2, 3, 4), 64: (2, 4, 8, 12, 16, 24),
